@@ -80,11 +80,11 @@ Print Assumptions C11_stop_leaves_nothing.
 (* ---- several hosts over one network, with pair creation (Qasm/TeardownX.v, Qasm/TeardownNet.v) --------------------------------
    nst = one Model-V network + one NetQASM host per node + the per-socket deques of delivered, unclaimed halves.
    Actions: AInstr i q (any instruction / init / stop of host i), ACreate (create-and-keep of one pair towards another
-   node: EprGate.cmd_epr_keep + delivery to the peer's deque + mapping of the kept half), ARecv (poll: a delivered half is
-   entered into qubitList and mapped).  `cleans` excludes exactly: a pair creation refused AFTER a temporary exists (the
-   known defect C11:epr-temporaries, C11_stop_restores_refuted_failed_pair in Properties/C08.v), binding a half to a
-   virtual address that is not free, and initialising an application id that still has a unit module. *)
-From SQ Require Import Net.Handles Qasm.EprGate Qasm.TeardownX Qasm.TeardownNet Qasm.TeardownNetExamples.
+   node: EprGate.cmd_epr_keep + delivery to the peer's deque + mapping of the kept half; a creation that fails after a
+   temporary qubit exists removes its temporaries again -- the repair of the former finding C11:epr-temporaries -- and is an
+   ordinary action), ARecv (poll: a delivered half is entered into qubitList and mapped).  `cleans` excludes exactly: binding
+   a half to a virtual address that is not free, and initialising an application id that still has a unit module. *)
+From SQ Require Import Net.Handles Qasm.EprGate Qasm.PerNodeNum Qasm.TeardownX Qasm.TeardownNet Qasm.TeardownNetExamples.
 
 (* the one-host invariant is the special case "no unclaimed halves" of the generalised one *)
 Theorem C11_tinv_is_tinvx : forall i s, tinv i s -> tinvx i [] s.
@@ -180,16 +180,64 @@ Theorem C11_unclaimed_half_stays :
 Proof. exact unclaimed_half_stays. Qed.
 Print Assumptions C11_unclaimed_half_stays.
 
-(* what `clean` excludes is the known defect: the creation refused by a full receiver is not clean *)
-Theorem C11_failed_creation_is_not_clean :
-  ~ clean (nrun (ninit [(4, 5); (0, 5)]) [AInstr 0 (QInitApp 0 2)]) (ACreate 0 0 0 [0; 1] 1 true 0).
-Proof. exact failed_creation_is_not_clean. Qed.
-Print Assumptions C11_failed_creation_is_not_clean.
+(* a pair creation that fails AFTER a temporary qubit exists (second cmd_new refused / receiver full) used to be excluded here
+   (the former finding C11:epr-temporaries); since the repair fixes/D16ii-epr-temporaries.diff it is an ordinary clean action:
+   the witness of the former finding, and the variant with room for one more qubit only, are clean histories in which the
+   request answers an error, every node's (held, simulated, registers, register counter) and the creator's host are exactly
+   what they were before the request (the creator holds another qubit before and after), and the stop leaves nothing *)
+Theorem C11_failed_creation_is_clean :
+  cleans (ninit caps_full) (before_full ++ [create_full] ++ after_full) /\
+  fails_after_temporary 0 (mkQ (n_net (nrun (ninit caps_full) before_full)) (host_at (nrun (ninit caps_full) before_full) 0))
+    [0; 1] 1 true (fresh_id (h_used (host_at (nrun (ninit caps_full) before_full) 0))) [true; false] /\
+  nrun_res (ninit caps_full) (before_full ++ [create_full] ++ after_full) = [RDone None; RDone None; RErr; RDone None] /\
+  populations (nrun (ninit caps_full) before_full) = [(1, 1, 1, 1); (0, 0, 0, 0)] /\
+  populations (nrun (ninit caps_full) (before_full ++ [create_full])) = [(1, 1, 1, 1); (0, 0, 0, 0)] /\
+  n_hosts (nrun (ninit caps_full) (before_full ++ [create_full])) = n_hosts (nrun (ninit caps_full) before_full) /\
+  populations (nrun (ninit caps_full) (before_full ++ [create_full] ++ after_full)) = [(0, 0, 0, 0); (0, 0, 0, 0)].
+Proof. exact failed_creation_is_clean. Qed.
+Print Assumptions C11_failed_creation_is_clean.
+
+Theorem C11_failed_second_creation_is_clean :
+  cleans (ninit caps_tight) (before_full ++ [create_tight] ++ after_full) /\
+  fails_after_temporary 0 (mkQ (n_net (nrun (ninit caps_tight) before_full)) (host_at (nrun (ninit caps_tight) before_full) 0))
+    [0; 1] 1 true (fresh_id (h_used (host_at (nrun (ninit caps_tight) before_full) 0))) [true] /\
+  nrun_res (ninit caps_tight) (before_full ++ [create_tight] ++ after_full) = [RDone None; RDone None; RErr; RDone None] /\
+  populations (nrun (ninit caps_tight) (before_full ++ [create_tight])) = populations (nrun (ninit caps_tight) before_full) /\
+  n_hosts (nrun (ninit caps_tight) (before_full ++ [create_tight])) = n_hosts (nrun (ninit caps_tight) before_full) /\
+  populations (nrun (ninit caps_tight) (before_full ++ [create_tight] ++ after_full)) = [(0, 0, 0, 0); (0, 0, 0, 0)].
+Proof. exact failed_second_creation_is_clean. Qed.
+Print Assumptions C11_failed_second_creation_is_clean.
+
+(* THE POSITIVE STATEMENT the former finding refuted, for every state the invariant describes (hence after every clean history:
+   C11_net_invariant_reachable) and every request: a pair creation that does not succeed -- refused by the three checks, by the
+   creator's own node at the first or second cmd_new, or by the receiving node at the hand-over -- answers an error and leaves
+   every host's bookkeeping (unit modules, used physical ids, qubitList, active applications), the receive deques, and the list
+   of qubits EVERY node holds (handles and numbers, in order; hence the number of qubits it holds) exactly as they were *)
+Theorem C11_failed_creation_restores : forall s i app a known r adj rsock coins,
+  ninv s -> i < length (n_hosts s) ->
+  snd (nstep_r s (ACreate i app a known r adj rsock coins)) <> RDone None ->
+  let s' := nstep s (ACreate i app a known r adj rsock coins) in
+  snd (nstep_r s (ACreate i app a known r adj rsock coins)) = RErr /\
+  n_hosts s' = n_hosts s /\ n_pend s' = n_pend s /\
+  forall j, vn (nth_node (n_net s') j) = vn (nth_node (n_net s) j) /\
+            hn (nth_node (n_net s') j) = hn (nth_node (n_net s) j) /\
+            held (n_net s') j = held (n_net s) j.
+Proof. exact failed_creation_restores. Qed.
+Print Assumptions C11_failed_creation_restores.
+
+(* the same for one host at the level of cmd_epr: the creator's host is unchanged, its invariant holds over the new network *)
+Theorem C11_failed_creation_leaves_creator : forall i ex s known r adj coins,
+  tinvx i ex s ->
+  let c := cmd_epr_keep i s known r adj (fresh_id (h_used (q_host s))) coins in
+  snd (fst c) <> RDone None ->
+  snd (fst c) = RErr /\ q_host (fst (fst c)) = q_host s /\ tinvx i ex (fst (fst c)) /\
+  forall j, hn (nth_node (q_net (fst (fst c))) j) = hn (nth_node (q_net s) j) /\ held (q_net (fst (fst c))) j = held (q_net s) j.
+Proof. exact failed_creation_leaves_creator. Qed.
+Print Assumptions C11_failed_creation_leaves_creator.
 
 (* a receive-deque entry stores the virtual NUMBER of the delivered half (as the code does); the lookup by number at poll time
    (remote_get_virtual_ref: first virtual qubit of the node with that number) returns the very qubit that was delivered,
    which the node still holds and no qubitList of its host refers to *)
-From SQ Require Import Qasm.PerNodeNum.
 Theorem C11_pending_lookup_faithful : forall caps xs,
   let s := nrun (ninit caps) xs in
   cleans (ninit caps) xs ->
